@@ -28,10 +28,10 @@ def streams(tier, seed):
                 dict(tag="medium", count=40, seed=seed + 1, extra={"minlen": 1000, "maxlen": 3000, "ill": 20}),
                 dict(tag="long", count=2, seed=seed + 2, extra={"minlen": 8000, "maxlen": 10000, "ill": 5})]
     out = []
-    for k in range(8):
+    for k in range(6):
         out.append(dict(tag="short%d" % k, count=4000, seed=seed * 1000 + k, extra={"minlen": 10, "maxlen": 400, "ill": 60}))
     out.append(dict(tag="medium", count=300, seed=seed + 1, extra={"minlen": 1000, "maxlen": 4000, "ill": 20}))
-    out.append(dict(tag="long", count=12, seed=seed + 2, extra={"minlen": 10000, "maxlen": 30000, "ill": 5}))
+    out.append(dict(tag="long", count=10, seed=seed + 2, extra={"minlen": 10000, "maxlen": 30000, "ill": 5}))
     out.append(dict(tag="huge", count=1, seed=seed + 3, extra={"minlen": 100000, "maxlen": 100000, "ill": 2}))
     return out
 
@@ -42,11 +42,12 @@ def search_streams(tier, seed, diffs):
 
 MANIFEST = dict(
     level_text=("Theorems in Coq over ALL construction histories (induction over the list of calls): references are canonical "
-                "(same node <=> same reference, same resolved structure => same reference, the same call returns the same reference "
-                "and changes nothing), stable (node, type, symbol name, literal value of an existing reference never change), "
-                "true/false are references 1/0 and is_true/is_false agree with the literal value, equal canonical (width, value) pairs "
-                "intern identically. Tie to /repo: the extracted model predicts the exact ExprRef of every call; compared on every run."),
+                "(same node <=> same reference; same resolved structure => same reference; the same call returns the same reference "
+                "and changes nothing; every returned reference denotes the requested expression), stable (node, type, symbol name, "
+                "literal value of an existing reference never change), true/false are references 1/0 and is_true/is_false agree with "
+                "the literal value, equal canonical (width, value) pairs intern identically; the extracted property oracle is passed by "
+                "the model on every history. Tie to /repo: the extracted model predicts the exact ExprRef of every call; compared on every run."),
     level_note=("Trusted: Coq kernel; hand-written model tied by differential execution (generator-bounded); indexmap/HashMap internals "
-                "abstracted; u32 index truncation not modelled. One genuine defect recorded: baa shift_left by whole words leaves "
-                "non-canonical words, so patronus' constant folder/evaluator produce literals that intern apart from the canonical literal."),
+                "abstracted; u32 index truncation not modelled. One patronus defect found and fixed (/repo 42f7f06: literals folded/evaluated "
+                "from whole-word left shifts interned apart from the canonical literal); two baa dependency defects recorded as findings."),
 )
